@@ -20,34 +20,35 @@ Lemma bess_nonvacuous :
                                   "upf.fteidGenerator"; "global.Timeout"] = true.
 Proof. vm_compute. reflexivity. Qed.
 
-Lemma up4_bad_run : bad_fields up4_run_table = f22_fields.
-Proof. vm_compute. reflexivity. Qed.
-Lemma up4_bad_all : bad_fields up4_table =
-  ["UP4.appMeterCellIDsPool"; "UP4.endMarkerChan"; "UP4.fseidToUEAddr"; "UP4.meters"; "UP4.p4RtTranslator"; "UP4.p4client";
-   "UP4.sessMeterCellIDsPool"; "UP4.ueAddrToFSEID"; "counter.counterIDsPool"].
-Proof. vm_compute. reflexivity. Qed.
-Lemma up4_writers :
-  map (fun f => unlocked_writers f up4_run_table) f22_fields =
-  [["UP4.removeUeAddrAndFSEIDMappings"; "UP4.updateUEAddrAndFSEIDMappings"];
-   ["UP4.configureMeters"; "UP4.resetMeters"];
-   ["UP4.removeUeAddrAndFSEIDMappings"; "UP4.updateUEAddrAndFSEIDMappings"]].
+(* UP4 while the datapath stays connected: the discipline holds in full *)
+Lemma lockset_up4 : lockset_ok up4_run_table = true.
 Proof. vm_compute. reflexivity. Qed.
 
-Lemma up4_refuted :
-  lockset_ok up4_run_table = false /\
-  forall f, In f f22_fields ->
-    exists a1 a2, In a1 up4_run_table /\ In a2 up4_run_table /\ a_field a1 = f /\ a_field a2 = f /\
+Lemma up4_nonvacuous :
+  forallb (has_field up4_run_table) ["UP4.meters"; "UP4.ueAddrToFSEID"; "UP4.fseidToUEAddr"; "UP4.tunnelPeerIDs"; "UP4.tunnelPeerIDsPool";
+                                     "UP4.applicationIDs"; "UP4.applicationIDsPool"; "tunnelPeer.usedBy"; "internalApp.usedBy";
+                                     "counter.counterIDsPool"; "UP4.appMeterCellIDsPool"; "UP4.sessMeterCellIDsPool"; "UP4.connected"] = true /\
+  has_conflict up4_run_table = true /\
+  has_conflict session_state_rows = true.
+Proof. vm_compute. repeat split; reflexivity. Qed.
+
+(* every access of the three maps outside start-up holds UP4.sessionStateMu; writers hold it exclusively
+   (a lock taken by RLock is not counted for a write by the extractor) *)
+Lemma session_state_locked :
+  forallb (fun a => mem_s "UP4.sessionStateMu" (a_locks a) || negb (live_phase a)) session_state_rows = true /\
+  forallb (fun f => existsb (fun a => String.eqb (a_field a) f && is_w a && live_phase a) session_state_rows) session_state_fields = true.
+Proof. vm_compute. split; reflexivity. Qed.
+
+(* with the re-initialisation that UP4.tryConnect performs after a lost datapath connection *)
+Lemma up4_bad_all : bad_fields up4_table = reconnect_fields.
+Proof. vm_compute. reflexivity. Qed.
+
+Lemma up4_reconnect_refuted :
+  lockset_ok up4_table = false /\
+  forall f, In f reconnect_fields ->
+    exists a1 a2, In a1 up4_table /\ In a2 up4_table /\ a_field a1 = f /\ a_field a2 = f /\
                   (a_rw a1 = W \/ a_rw a2 = W) /\ may_run_concurrently a1 a2 /\
                   forall l, In l (a_locks a1) -> ~ In l (a_locks a2).
 Proof.
-  split; [vm_compute; reflexivity|]. intros f Hf. apply bad_field_witness. rewrite up4_bad_run. exact Hf.
+  split; [vm_compute; reflexivity|]. intros f Hf. apply bad_field_witness. rewrite up4_bad_all. exact Hf.
 Qed.
-
-(* everything else the UP4 plug-in shares between associations (tunnel peers, applications, the counter
-   and meter-cell pools, the connection flag) obeys the discipline as long as no reconnection happens *)
-Lemma up4_partial : lockset_ok up4_guarded_table = true /\
-  forallb (has_field up4_guarded_table) ["UP4.tunnelPeerIDs"; "UP4.tunnelPeerIDsPool"; "UP4.applicationIDs"; "UP4.applicationIDsPool";
-                                         "tunnelPeer.usedBy"; "internalApp.usedBy"; "counter.counterIDsPool";
-                                         "UP4.appMeterCellIDsPool"; "UP4.sessMeterCellIDsPool"; "UP4.connected"] = true /\
-  has_conflict up4_guarded_table = true.
-Proof. vm_compute. repeat split; reflexivity. Qed.
